@@ -50,6 +50,8 @@ for d in dirs:
             rules = sorted({l.split("rule=")[1].split()[0] for p, ls in alarms for l in ls if "rule=" in l})
             if ownhit: print("%-10s bad  detected            %s" % (name, ",".join(rules)))
             elif alarms: print("%-10s bad  detected-by-other   %s" % (name, ",".join(rules)))
+            elif meta.get("expect") == "missed":
+                print("%-10s bad  not reported (recorded: %s)" % (name, meta.get("expect_reason", "")[:100]))
             else:
                 bad_silent += 1; print("%-10s bad  MISSED" % name)
 sh("git -C %s checkout -q -- . && git -C %s clean -fdq && git -C %s checkout -q --detach %s" % (SCR, SCR, SCR, head))
